@@ -1,6 +1,7 @@
 import Capella.Lemmas.GeomSnap
 import Capella.Lemmas.GeomTranslate
 import Capella.Lemmas.GeomView
+import Capella.Lemmas.GeomMore
 
 /-!
 # C17 — parsed diagrams are geometrically sound and independent of absolute position
@@ -146,6 +147,42 @@ theorem translate_equivariant_viewport (bounds : List Rect) (v : V2) :
 theorem on_outline_translate (b : Box) (q v : V2) : onOutline (b.translate v) (q + v) ↔ onOutline b q :=
   onOutline_translate b q v
 
+/-- … of `Box.snap_to_parent` (parent and port/child moved together) … -/
+theorem translate_equivariant_snap_to_parent (parent child : Box) (overhang margin : Rat) (raw v : V2) :
+    snapPort (parent.translate v) (child.translate v) overhang = (snapPort parent child overhang).map (· + v) ∧
+    snapChild (parent.translate v) (child.translate v) raw margin =
+      ((snapChild parent child raw margin).1 + v, (snapChild parent child raw margin).2) :=
+  ⟨snapPort_translate parent child overhang v, snapChild_translate parent child raw margin v⟩
+
+/-- … of `Box.bounds` and `Edge.bounds` … -/
+theorem translate_equivariant_bounds (b : Box) (labels elabels : List Box) (p0 : V2) (points : List V2) (v : V2) :
+    boxBounds (b.translate v) (labels.map (·.translate v)) = (boxBounds b labels).translate v ∧
+    edgeBounds (elabels.map (·.translate v)) (p0 + v) (points.map (· + v)) = (edgeBounds elabels p0 points).translate v :=
+  ⟨boxBounds_translate b labels v, edgeBounds_translate elabels p0 points v⟩
+
+/-- … and of the default routes `route_oblique` / `route_manhattan`. -/
+theorem translate_equivariant_routes (s t : Box) (v : V2) :
+    routeOblique (s.translate v) (t.translate v) = (routeOblique s t).map (· + v) ∧
+    routeManhattan (s.translate v) (t.translate v) = (routeManhattan s t).map (fun l => l.map (· + v)) :=
+  ⟨routeOblique_translate s t v, routeManhattan_translate s t v⟩
+
+/-- `Vector2D.boxsnap` returns a point on the outline of the box spanned by the two corners (any order,
+degenerate boxes included), for every point. -/
+theorem boxsnap_on_outline (self c1 c2 : V2) : onOutline (rectBox c1 c2) (boxsnap self c1 c2) :=
+  Capella.Geom.boxsnap_on_outline self c1 c2
+
+/-- `Edge.vector_snap`: whenever it returns (no zero-length segment), the point lies on one of the edge's
+segments. -/
+theorem edge_snap_on_edge (points : List V2) (v q : V2) (h : edgeSnap points v = .ok q) : onPolyline points q :=
+  edgeSnap_on_edge points v q h
+
+/-- `route_manhattan` between two proper boxes succeeds, starts on the outline of the source and ends on the
+outline of the target. -/
+theorem route_manhattan_ends_on_outlines (s t : Box) (hsw : 0 < s.size.x) (hsh : 0 < s.size.y)
+    (htw : 0 < t.size.x) (hth : 0 < t.size.y) :
+    ∃ a m1 m2 z, routeManhattan s t = .ok [a, m1, m2, z] ∧ onOutline s a ∧ onOutline t z :=
+  routeManhattan_ends s t hsw hsh htw hth
+
 /-! ## Non-vacuity -/
 
 -- the call that used to fail `assert len(intersections) < 2` (edge aimed at a corner)
@@ -169,6 +206,11 @@ example : snapPort ⟨⟨0, 0⟩, ⟨100, 50⟩, false⟩ ⟨⟨80, 20⟩, ⟨10
 example : portAttached ⟨⟨0, 0⟩, ⟨100, 50⟩, false⟩ ⟨92, 20⟩ ⟨10, 10⟩ ∧
     ¬ portAttached ⟨⟨0, 0⟩, ⟨100, 50⟩, false⟩ ⟨80, 20⟩ ⟨10, 10⟩ := by
   constructor <;> simp [portAttached] <;> norm_num
+-- boxsnap from inside goes to the nearest side; Edge.vector_snap projects; a Manhattan route
+example : boxsnap ⟨1, 2⟩ ⟨4, 4⟩ ⟨0, 0⟩ = ⟨0, 2⟩ := by decide +kernel
+example : edgeSnap [⟨0, 0⟩, ⟨4, 0⟩, ⟨4, 4⟩] ⟨3, 1⟩ = .ok ⟨3, 0⟩ := by decide +kernel
+example : routeManhattan ⟨⟨0, 0⟩, ⟨2, 2⟩, false⟩ ⟨⟨10, 0⟩, ⟨2, 4⟩, false⟩ = .ok [⟨2, 1⟩, ⟨6, 1⟩, ⟨6, 2⟩, ⟨10, 2⟩] := by
+  decide +kernel
 -- viewport of two rectangles
 example : viewport [⟨0, 0, 2, 2⟩, ⟨-1, 1, 1, 5⟩] = some ⟨-1, 0, 2, 5⟩ := by decide +kernel
 -- translation really moves things
